@@ -9,7 +9,11 @@ from contracts import text_funcs as TF
 
 def build(tag):
     eng = verify.Engine()
-    getattr(TF, 'register_' + tag)(eng)
+    if tag.startswith('prep:'):
+        from contracts import writer as W
+        W.register(eng, tag[5:], own_prepare=True)
+    else:
+        getattr(TF, 'register_' + tag)(eng)
     return eng
 
 
@@ -22,7 +26,11 @@ def main():
         return 0 if out['ok'] else 1
     jobs = [(TF.T_STRIP, 'strip'), (TF.T_NEWLINE, 'newline'),
             (TF.T_GUESS, 'guess')]
-    chk.verify_parallel(build, jobs, timeout_s=30, procs=3)
+    # the writer's use of the stripped newline (append / split / indent)
+    from contracts import writer as W
+    jobs += [(W.QN + '_prepare_content', 'prep:' + p)
+             for p in ('diffx', '..file')]
+    chk.verify_parallel(build, jobs, timeout_s=30, procs=5)
     chk.trusted += [
         'A-codec: codecs.lookup(name).name is the canonical name (Canon, '
         'uninterpreted), lookup fails iff the codec is unknown; str.encode '
